@@ -40,7 +40,7 @@ import vcommon as vc
 
 warnings.filterwarnings('ignore')
 
-GEN_TARGETS = ()
+GEN_TARGETS = ('VineFlowGen',)
 DRIVER_MAIN = 'Main/VineFlow.lean'
 DRIVER_TARGETS = ['CopVerif.Driver.VineFlow']
 ALWAYS_SEARCH = True
@@ -233,14 +233,20 @@ class _NpProxy:
 
 
 @contextlib.contextmanager
-def poisoned_empty(sentinel):
+def poisoned_empty(sentinel, vine_sentinel=None):
+    """np.empty inside copulas.multivariate.tree returns buffers filled with `sentinel`; with `vine_sentinel`
+    also inside copulas.multivariate.vine (the per-tree `values` buffer of VineCopula.get_likelihood)."""
     from copulas.multivariate import tree as T
-    orig = T.np
+    from copulas.multivariate import vine as V
+    orig, orig_v = T.np, V.np
     T.np = _NpProxy(sentinel)
+    if vine_sentinel is not None:
+        V.np = _NpProxy(vine_sentinel)
     try:
         yield
     finally:
         T.np = orig
+        V.np = orig_v
 
 
 def real_fit(X, vt, t):
@@ -428,12 +434,12 @@ def lik_by_spec(vine, spec, u):
     return float(np.sum(totals))
 
 
-def real_lik(vine, u, sentinel=None):
+def real_lik(vine, u, sentinel=None, vine_sentinel=None):
     try:
         with np.errstate(all='ignore'):
             if sentinel is None:
                 return float(vine.get_likelihood(u.copy()))
-            with poisoned_empty(sentinel):
+            with poisoned_empty(sentinel, vine_sentinel):
                 return float(vine.get_likelihood(u.copy()))
     except Exception as e:  # noqa
         return 'exc:' + type(e).__name__
@@ -980,6 +986,21 @@ def check_real(ctx, X, vt, t, counts, rng, deep):
     u = np.array([[rng.uniform(0.02, 0.98) for _ in range(d)]])
     res = [real_lik(v, u, s) for s in SENTINELS]
     inp_u = table_input(X, vt, t, u=u.tolist())
+    # VineCopula.get_likelihood itself (independent of what the trees read): every tree once, in order, and the
+    # result is the sum of the trees' values; its own `values` buffer must not leak (second sentinel pair)
+    counts['vine-sum checks'] += 1
+    vs = vine_sum_oracle(v, u)
+    if vs:
+        counts['failures'] += 1
+        ctx.fail_input('VineCopula.get_likelihood', inp_u, vs, 'get_likelihood(u) = sum over ALL trees of the tree values',
+                       'VineCopula.get_likelihood:not-sum-over-all-trees')
+    own = [real_lik(v, u, SENTINELS[0], s) for s in SENTINELS]
+    if not same_num(own[0], own[1], 0.0):
+        counts['failures'] += 1
+        ctx.fail_input('VineCopula.get_likelihood', inp_u,
+                       {'vine.py np.empty filled with %r' % SENTINELS[0]: own[0],
+                        'vine.py np.empty filled with %r' % SENTINELS[1]: own[1], 'trees': len(v.trees)},
+                       'get_likelihood(u) is a function of (model, u)', 'VineCopula.get_likelihood:nondeterministic')
     if not same_num(res[0], res[1], 0.0):
         counts['failures'] += 1
         counts['lik-nondeterministic'] += 1
